@@ -183,6 +183,10 @@ def n_div(a, b):
     ctx().add_fact(z3.Implies(fin, z3.And(u.t == FIN, u.r == _real(a.r) / _real(b.r))))
     # x / +-inf = 0 for finite x
     ctx().add_fact(z3.Implies(z3.And(ta == FIN, z3.Or(tb == PINF, tb == NINF)), z3.And(u.t == FIN, u.r == 0)))
+    # +-inf / finite non-zero = +-inf with the product of the signs
+    rb = _real(b.r)
+    ctx().add_fact(z3.Implies(z3.And(z3.Or(ta == PINF, ta == NINF), tb == FIN, rb != 0),
+                              u.t == z3.If((ta == PINF) == (rb > 0), PINF, NINF)))
     return u
 
 
@@ -476,7 +480,12 @@ def arr_map2(f, a, b, dtype="num"):
 
 
 def arr_map1(f, a, dtype=None):
-    return Arr(a.ndim, a.shape, lambda *i: f(a.elem(*i)), dtype or a.dtype, intdtype=a.intdtype)
+    r = Arr(a.ndim, a.shape, lambda *i: f(a.elem(*i)), dtype or a.dtype, intdtype=a.intdtype)
+    al = getattr(a, "aligned", None)
+    if al is not None:
+        m, g = al
+        r.aligned = (m, lambda *i: f(g(*i)))  # elementwise image of a mask selection stays aligned with the mask
+    return r
 
 
 def arr_forall(a, pred=None):
@@ -802,6 +811,8 @@ def val_ite(c, a, b):
         r.py = a.py
     elif b.py is not None and _pure_none(a):
         r.py = b.py
+    elif a.py is not None and b.py is not None and a.py[0] in ("lambda", "def", "callable_ite") and b.py[0] in ("lambda", "def", "callable_ite"):
+        r.py = ("callable_ite", c, a, b)  # a callable chosen by a branch: calls evaluate both and merge
     if not r._has_primary():
         # an untyped value merged with None: the same untyped value, possibly None
         for x, y in ((a, b), (b, a)):
